@@ -200,9 +200,15 @@ def skeletons(tier):
             out.append([(None, "secd", None), ("L0", f, None), (None, "secc", None), (None, r, "L0")])
             out.append([(None, r, "L0"), (None, "secd", None), (None, f, None), ("L0", "defw", None)])
         out.append([("L0", "label", None), (None, "mva", None), (None, r, "L0")])
+        out.append([(None, "defme", None), ("L0", "mvdn", None), (None, r, "L0")])  # a string with an escape before a label
         out.append([(None, r, "L1"), ("L0", "mvx", None), ("L1", "label", None), (None, r, "L0")])
         out.append([(None, "org", None), ("L0", "defs3", None), ("L1", "defm", None), (None, r, "L1"), (None, r, "L0")])
         out.append([(None, "secd", None), (None, "org", None), ("L0", "defl", None), (None, "secc", None), (None, "org", None), (None, r, "L0")])
+    # a label used as an 8-bit displacement (label values 1..0x20: no .ORG in these skeletons)
+    for f in fl[:4]:
+        out.append([(None, f, None), ("L0", "mva", None), (None, "mvdl", "L0")])
+        out.append([(None, "mvdl", "L0"), (None, f, None), ("L0", "nop", None)])
+    out.append([(None, "defme", None), ("L0", "defm", None), (None, "defwl", "L0"), (None, "mvdl", "L0")])
     if tier == "thorough":
         # filler orders around a far reference: a deterministic stride through the 3-permutations (structure only; numerals stay symbolic)
         for f1, f2, f3 in list(itertools.permutations(FILLERS, 3))[::3]:
